@@ -224,7 +224,7 @@ void parse_itmz_token_chain(mmd_engine * e, token * chain) {
 		DString * metadata = d_string_new("");
 		DString * out = final;
 
-		size_t header_level = -1;	// ITMZ has a dummy root note
+		long header_level = -1;	// ITMZ has a dummy root note
 		size_t start, len;
 
 		walker = chain->next;
